@@ -179,6 +179,12 @@ func (k Keeper) WithdrawEarnedFees(ctx sdk.Context, owner, provider sdk.AccAddre
 
 	withdrawAddr := k.GetWithdrawAddress(ctx, owner)
 
+	// the module custody accounts must not receive the earned fees
+	if withdrawAddr.Equals(k.accountKeeper.GetModuleAddress(types.RequestAccName)) ||
+		withdrawAddr.Equals(k.accountKeeper.GetModuleAddress(types.DepositAccName)) {
+		return sdkerrors.Wrapf(sdkerrors.ErrUnauthorized, "%s is not allowed to receive funds", withdrawAddr)
+	}
+
 	return k.bankKeeper.SendCoinsFromModuleToAccount(ctx, types.RequestAccName, withdrawAddr, withdrawFees)
 }
 
